@@ -15,7 +15,7 @@
 (*                           against the bytes starts at the from-th h     *)
 (*   {ev:"end"}                                                            *)
 (***************************************************************************)
-EXTENDS Decoder, Encoder, TLC, Json, IOUtils
+EXTENDS RoundTrip, TLC, Json, IOUtils
 
 Trace == ndJsonDeserialize(IOEnv.VERIF_TRACE)
 
@@ -25,33 +25,6 @@ vars == << l, srcLine, st, e, k, skip, nbad >>
 Has(r, f) == f \in DOMAIN r
 B == Trace[srcLine].b
 Src == Trace[srcLine]
-
-Pseudo == {"SetHiRes", "CSel", "NSel", "LOD", "Bytes"}
-
-PalKept(hp, dp) == \A i \in 1..64 : ValidPremul(hp[i]) => dp[i] = hp[i]
-
-(* hc: history call, dc: decoded call, hi: resolution in effect *)
-HMatch(hc, dc, hi) ==
-  /\ hc.op = dc.op /\ Len(hc.f) = Len(dc.f)
-  /\ CASE hc.op = "Reset" ->
-            /\ \A i \in 1..4 : CoordMatch(TRUE, hc.f[i], dc.f[i])
-            /\ PalKept(hc.pal, dc.pal)
-       [] hc.op \in {"SetCSel", "SetNSel"} -> dc.sel = hc.sel % 64
-       [] hc.op = "SetCReg" -> dc.adj = hc.adj /\ dc.incr = hc.incr /\ dc.c = hc.c
-       [] hc.op = "SetNReg" ->
-            /\ dc.adj = hc.adj /\ dc.incr = hc.incr
-            /\ (IF IsNaN(hc.f[1]) THEN ~IsFinite(dc.f[1])
-                ELSE NumEq(dc.f[1], hc.f[1]) \/ Within4(dc.f[1], hc.f[1]))
-            /\ ((RepReal(1, hc.f[1]) \/ RepReal(2, hc.f[1]) \/ RepCoord(1, hc.f[1]) \/ RepCoord(2, hc.f[1]))
-                   => NumEq(dc.f[1], hc.f[1]))
-       [] hc.op = "SetLOD" -> RealMatch(hc.f[1], dc.f[1]) /\ RealMatch(hc.f[2], dc.f[2])
-       [] hc.op = "StartPath" ->
-            dc.adj = hc.adj /\ \A i \in 1..2 : CoordMatch(hi, hc.f[i], dc.f[i])
-       [] hc.op \in {"AbsArcTo", "RelArcTo"} ->
-            /\ dc.fl = hc.fl
-            /\ \A i \in {1, 2, 4, 5} : CoordMatch(hi, hc.f[i], dc.f[i])
-            /\ AngleMatch(hc.f[3], dc.f[3])
-       [] OTHER -> \A i \in 1..Len(hc.f) : CoordMatch(hi, hc.f[i], dc.f[i])
 
 Diag(what, want) ==
   PrintT(ToJson([diag |-> what, line |-> l, src |-> srcLine, ev |-> Trace[l], want |-> want,
